@@ -8,6 +8,7 @@ from pv.formula import Formula
 from pv.loops import enclosing_loops, loop_shape
 from pv import roles
 from checks.lehmann import fld, THIS, FOP, ROWMAJOR, COLMAJOR
+from checks import lehmann as lh
 import sympy as sp
 
 FP = "Pomerol::FieldOperatorPart"
@@ -425,6 +426,9 @@ def body(chk, db, cfgname):
                 r6.bad(site, g.loc(), "; ".join(probs), cfgname)
             else:
                 r6.ok(site, g.loc(), "new %s(.., HTo, HFrom, PIndex) with both storages transposed" % other.split("::")[-1], cfgname)
+
+    r7 = chk.rule("C10-R7", "repeated prepareAll / computeAll on the operator container: no `already computed` flag survives a later change of the operator maps (work added after the first computeAll is still done)", "F4 paired state", 1)
+    lh.check_memo_flags(r7, db, cfgname, ("Pomerol::FieldOperatorContainer",))
 
     chk.undecided.append("{c_i, c+_j} = delta_ij assembled over all blocks; Fock-basis back-transformation equals the Jordan-Wigner matrix (value level); degenerate eigenvectors")
 
